@@ -371,6 +371,135 @@ def r8(ctx, prog):
     ctx.ob('C14.R8', '%s|neg-on-unbalanced' % f.name, ok and bool(neg), '-1 only when a bracket level went negative', where=f.loc(f.body))
 
 
+def r14(ctx, prog):
+    ctx.rule('C14.R14', 'A10 encoder/decoder agreement: a framing\'s decoder refuses input (negative return) only for reasons its own encoder\'s output cannot give: '
+             'a head code different from the one the encoder writes, text that does not parse, or a length above a bound L_dec — and then the encoder refuses '
+             'to write any text longer than some L_enc <= L_dec (both bounds folded from the guards\' constants)', floor=4)
+    n = 0
+    U32 = 1 << 32
+    for P in PROTOS:
+        dec, enc = prog.fn1(NS + P + '::onRecvData'), prog.fn1(NS + P + '::sendJson')
+        wl = wire_locals(dec)
+        # what the encoder writes: data members streamed into the frame, and the text whose size/data are sent
+        def own_fields(g):
+            return {x['n'] for x in g.stmts if x and x['k'] == 'MemberExpr' and x.get('mk') == 'field' and x.get('ch') and
+                    (g.s(g.strip_casts(x['ch'][0])) or {}).get('k') == 'CXXThisExpr'}
+        fields = own_fields(dec) | own_fields(enc)
+        enc_fields = set()
+        for st in enc.calls():
+            if st.get('op') == '<<':
+                for a in st.get('args', []):
+                    pa = enc.path(a)
+                    if pa in fields:
+                        enc_fields.add(pa)
+        sends = [st for st in enc.calls() if st.get('fn') == 'operator()' and st.get('obj') is not None and enc.path(st['obj']).endswith('send_data_cb_')]
+        if not sends:
+            raise AnalysisBroken('%s::sendJson: no call of send_data_cb_' % P)
+
+        def enc_refuses(size):
+            """does every send in the encoder lie behind a guard that is false for a text of `size` bytes?"""
+            def leaf(st):
+                if st['k'] in q.CALL_KINDS and st.get('fn') in ('size', 'length') and 'basic_string' in (st.get('cls') or ''):
+                    return size
+                if st['k'] == 'DeclRefExpr' and st.get('dk') == 'Var' and not st.get('gl'):
+                    defs = rd.local_defs(enc, st['d'])          # a named temporary with one definition stands for its initialiser
+                    if len(defs) == 1 and defs[0]['kind'] in ('init', '=') and defs[0]['rhs'] is not None:
+                        return q.eval_expr(enc, defs[0]['rhs'], leaf)
+                return None
+            for snd in sends:
+                refused = False
+                for cond, k, b in q.guards_incl_flags(enc, q.pt(enc, snd)):
+                    v = q.eval_expr(enc, cond, leaf)
+                    if v is not None and bool(v) != (k == 0):
+                        refused = True
+                if not refused:
+                    return False
+            return True
+
+        for st in dec.stmts:
+            if not st or st['k'] != 'ReturnStmt' or not st.get('ch'):
+                continue
+            rv = dec.s(dec.strip_casts(st['ch'][0]))
+            val = rv.get('cv') if rv else None
+            if val is None and rv and rv['k'] == 'UnaryOperator' and rv.get('op') == '-':
+                val = -1
+            if val is None or val >= 0:
+                continue
+            n += 1
+            p = q.pt_or_term(dec, st)
+            guards = q.guards_incl_flags(dec, p)
+            reason, lenconds = None, []
+            for cond, k, b in guards:
+                r = q.edge_relation(dec, cond, k)
+                if r and r[1] == '!=':
+                    sides = (r[0], r[2])
+                    wire = [x for x in sides if any(w.get('n') == x for w in wl.values())]
+                    fld = [x for x in sides if x in fields]
+                    if wire and fld:
+                        reason = ('magic', fld[0])
+                defs = q.flag_true_defs(dec, cond, k)
+                if defs and all(d['rhs'] is not None and any(dec.stmts[x]['k'] in q.CALL_KINDS and dec.stmts[x].get('fn') == 'CatchThrow' for x in dec.walk(d['rhs'])) for d in defs):
+                    reason = ('parse', None)
+                ds = {dec.stmts[x].get('d') for x in dec.walk(cond) if dec.stmts[x]['k'] == 'DeclRefExpr'}
+                if (ds & set(wl)) and not (r and r[1] in ('!=', '==') and any(x in fields for x in (r[0], r[2]))):
+                    lenconds.append((cond, k, ds & set(wl)))
+            tag = '%s::onRecvData|return %d@%s' % (P, val, dec.loc(st['i']).split(':')[-1])
+            if reason and reason[0] == 'magic':
+                ok = reason[1] in enc_fields
+                ctx.ob('C14.R14', tag, ok, 'refused on a head code other than %s, which the encoder writes' % reason[1] if ok else
+                       'the decoder refuses frames whose head differs from %s, but the encoder does not write that member' % reason[1], where=dec.loc(st['i']))
+                continue
+            if reason:
+                ctx.ob('C14.R14', tag, True, 'refused on text that does not parse (the encoder writes Json::dump())', where=dec.loc(st['i']))
+                continue
+            if not lenconds:
+                ctx.ob('C14.R14', tag, False, 'the decoder refuses input on a path that is neither a head-code mismatch, a parse failure nor a length bound: nothing shows that '
+                       'frames written by %s::sendJson never take it' % P, where=dec.loc(st['i']))
+                continue
+            # length bound: the smallest wire length that is refused, by folding the guards with the wire local = v
+            def refused_at(v):
+                for cond, k, ws in lenconds:
+                    def leaf(sx):
+                        if sx['k'] == 'DeclRefExpr' and sx.get('d') in ws:
+                            return v
+                        if sx['k'] == 'DeclRefExpr' and sx.get('dk') == 'ParmVar':
+                            return U32 * 4          # the buffer is as large as it needs to be: only the bound itself is of interest
+                        return None
+                    x = q.eval_expr(dec, cond, leaf)
+                    if x is None:
+                        return None
+                    if bool(x) != (k == 0):
+                        return False
+                return True
+            lo, hi = 0, U32 - 1
+            top = refused_at(hi)
+            if top is None or refused_at(0) is None:
+                raise AnalysisBroken('%s: cannot fold the length guard of the negative return at %s' % (P, dec.loc(st['i'])))
+            if not top:
+                # refuses nothing at the top of the range: treat as a window test — look for any refused probe
+                probes = [x for c, k, w in lenconds for y in dec.walk(c) for x in ([dec.stmts[y]['cv'] + d for d in range(-16, 17)] if dec.stmts[y].get('cv') is not None else [])]
+                hit = [v for v in probes if 0 <= v < U32 and refused_at(v)]
+                l_dec = min(hit) - 1 if hit else None
+            else:
+                while lo < hi:
+                    mid = (lo + hi) // 2
+                    if refused_at(mid):
+                        hi = mid
+                    else:
+                        lo = mid + 1
+                l_dec = lo - 1          # lengths 0..l_dec are accepted
+            if l_dec is None:
+                ctx.ob('C14.R14', tag, True, 'the length guard refuses no length in range', where=dec.loc(st['i']))
+                continue
+            # the encoder must refuse every text longer than l_dec (probe the window around the bound and the range top)
+            leak = [v for v in sorted({l_dec + d for d in range(1, 33)} | {U32 - 1, l_dec + 1024, l_dec * 2 + 1}) if v < U32 and not enc_refuses(v)]
+            ctx.ob('C14.R14', tag, not leak, 'lengths above %d are refused by the decoder and never written by the encoder' % l_dec if not leak else
+                   'the decoder refuses every frame whose length field exceeds %d, but %s::sendJson still writes a text of %d bytes: a message written by the framing\'s own encoder '
+                   'is rejected by its decoder (the two bounds are applied to different quantities)' % (l_dec, P, leak[0]), where=dec.loc(st['i']))
+    if n < 4:
+        raise AnalysisBroken('expected >= 4 refusing returns in the three decoders, saw %d' % n)
+
+
 def run(ctx):
     prog = extract('ALL' if ctx.tier == 'thorough' else scope_units())
     ctx.guard(r1, ctx, prog)
@@ -383,6 +512,7 @@ def run(ctx):
     ctx.guard(tmon.run, ctx, prog, 'C14.R9')
     ctx.guard(tmon.run_users, ctx, prog, 'C14.R12', RPC)
     ctx.guard(r13, ctx, prog)
+    ctx.guard(r14, ctx, prog)
     ctx.guard(harden.run_json_narrowing, ctx, prog, 'C14.R11', [prog.fn1(NS + 'Proto::onRecvJson')] + [prog.fn1(RPC + '::' + n) for n in ('onRecvRequest', 'onRecvRespond')],
               lambda g: g.file.startswith(MODULES + '/jsonrpc/') or g.file.startswith(MODULES + '/util/'), 'JSON-RPC receive path')
     ctx.guard(harden.run, ctx, prog, 'C14.R10', [prog.fn1(NS + p + '::onRecvData') for p in PROTOS] + [prog.fn1(NS + 'Proto::onRecvJson')] +
